@@ -465,7 +465,7 @@ func stringsToA(s []string) A {
 func init() {
 	checks["c04"] = func(id string) int {
 		r := newRun(id, "fault_enumeration")
-		r.Rule = "inbox POSTs of each handled type (Create, Update, Delete, Follow, Accept, Reject, Add, Remove, Like, Announce, Undo, Block) with 1..3 objects/targets/actors as IRIs or embedded values, owned or not, ordered or unordered collections, likes/shares absent / Collection / OrderedCollection, Accepts by a subset of 1..3 followed actors with or without a never-followed co-actor, OnFollow in {nothing, accept, reject}, and for every type {no application callback, wrapped callback, overriding 'other' callback}; a subset also under every single fault; the byte-level store after the request, the deliveries and the callback log are compared with a per-type reference model; non-trivial = default side effect expected and observed; distinct by scenario and fault plan"
+		r.Rule = "inbox POSTs of each handled type (Create, Update, Delete, Follow, Accept, Reject, Add, Remove, Like, Announce, Undo, Block) with 1..3 objects/targets/actors as IRIs or embedded values, owned or not, ordered or unordered collections, likes/shares absent / Collection / OrderedCollection, Accepts by a subset of 1..3 followed actors with or without a never-followed co-actor, OnFollow in {nothing, accept, reject}, and for every type {no application callback, wrapped callback, overriding 'other' callback}; a subset also under every single fault; the byte-level store after the request, the deliveries and the callback log are compared with a per-type reference model; objects named by IRI whose document is of a type the vocabularies do not define (Create, Accept); non-trivial = default side effect expected and observed; distinct by scenario and fault plan"
 		r.Assumptions = []string{"likes / shares are compared as sequences with the new entry first; followers, following and Add / Remove targets as sets (the statement fixes no position there)", "likes/shares given as a bare IRI on the stored object are not generated"}
 		judge := func(cs c04Case, sc *sim.Scenario, res *sim.Result) {
 			r.Eval(1)
